@@ -12,4 +12,47 @@ PROPS = {
         rule="events = real calls of Change*Zoom / HorizontalZoom(MinMax) / VerticalZoom; distinct = distinct (op, window base zooms, model arguments); non-trivial = the call changes a zoom (result differs from input)",
         assumptions=["TLC", "window embedding/projection E,P (harness/win.go)", "TLA+ statement of C03 in SpatialMachine.tla (C03_*)"],
     ),
+    "C04": dict(
+        level="model_checking",
+        mc=[dict(module="MC_Grid.tla", cfg="MC_Merge.cfg", constants="M=2; reduced merge grid (42 voxels): all pairs, triples of the coarser 18, complete descendant sets minus at most one cell; 9 targets"),
+            dict(module="MC_Grid.tla", cfg="MC_Merge2.cfg", constants="M=2; pairs of 18 voxels; two consecutive merges (second merge stutters)")],
+        gen=[dict(name="merge", module="Gen_Grid.tla", cfg="Gen_Merge.cfg", windows={Q: 2, T: 24})],
+        drive=[dict(family="merge", n={Q: 2500, T: 12000}, shards={Q: 1, T: 8})],
+        rule="events = real calls of Merge(Extended)SpatialIds, each followed by a second merge of its own output; distinct = distinct (op, window base zooms, model arguments); non-trivial = the merge replaced at least two inputs by a parent",
+        assumptions=["TLC", "window embedding/projection E,P", "TLA+ statement of C04 (MergeDef / C04_* in SpatialMachine.tla, GridDef.tla)"],
+    ),
+    "C05": dict(
+        level="model_checking",
+        mc=[dict(module="MC_Grid.tla", cfg="MC_Overlap.cfg", constants="M=2: all 294 x 294 ordered pairs"),
+            dict(module="MC_Grid.tla", cfg="MC_OverlapPairs.cfg", constants="M=2: all pairs of a 42-voxel column as first list x 294 probes")],
+        gen=[dict(name="overlap", module="Gen_Grid.tla", cfg="Gen_Overlap.cfg", windows={Q: 2, T: 24})],
+        drive=[dict(family="overlap", n={Q: 8000, T: 80000}, shards={Q: 1, T: 8})],
+        rule="events = real calls of the four Check*Overlap functions, each in both argument orders; distinct = distinct (op, window, arguments); every event is non-trivial (a pair or a pair of lists)",
+        assumptions=["TLC", "window embedding/projection E,P", "TLA+ statement of C05 (OverlapDef, C05_*)", "radix-tree checks are driven only inside the documented +-2^24 m altitude domain"],
+    ),
+    "C07": dict(
+        level="model_checking",
+        mc=[dict(module="MC_Grid.tla", cfg="MC_Shift.cfg", constants="M=2 absolute world: 294 voxels x dx in -16..16, dy in {-5,0,3}, dv in -1..1"),
+            dict(module="MC_Grid.tla", cfg="MC_ShiftCompose.cfg", constants="M=2: 42 voxels x pairs of shifts in -2..2 x -2..2 x -1..1 (composition law)")],
+        gen=[dict(name="shift", module="Gen_Grid.tla", cfg="Gen_Shift.cfg", windows={Q: 2, T: 24})],
+        drive=[dict(family="shift", n={Q: 8000, T: 80000}, shards={Q: 1, T: 8})],
+        rule="events = real calls of GetShiftingSpatialID (single shifts, and 4-call composition groups); distinct = distinct (op, window, arguments); non-trivial = non-zero shift",
+        assumptions=["TLC", "window embedding/projection E,P (centred residues make the world wrap invisible in window mode; absolute mode checks the modulus itself up to zoom 28)", "TLA+ statement of C07 (Shift, C07_*)"],
+    ),
+    "C08": dict(
+        level="model_checking",
+        mc=[dict(module="MC_Grid.tla", cfg="MC_NLayer.cfg", constants="M=2: singletons + pairs of a column, layers 0..2 x 0..2")],
+        gen=[dict(name="nlayer", module="Gen_Grid.tla", cfg="Gen_NLayer.cfg", windows={Q: 2, T: 16})],
+        drive=[dict(family="shift", n={Q: 8000, T: 80000}, shards={Q: 1, T: 8})],
+        rule="events = real calls of Get6/8/26... and GetNspatialIdsAroundVoxcels (layers 0..4), plus the shifts they are defined by; distinct = distinct (op, window, arguments)",
+        assumptions=["TLC", "window embedding/projection E,P", "TLA+ statement of C08 (stencils, NLayer, C08_*)"],
+    ),
+    "C10": dict(
+        level="model_checking",
+        mc=[dict(module="MC_Grid.tla", cfg="MC_Notation.cfg", constants="M=2: all 294 voxels")],
+        gen=[dict(name="notation", module="Gen_Grid.tla", cfg="Gen_Notation.cfg", windows={Q: 6, T: 60})],
+        drive=[dict(family="notation", n={Q: 10000, T: 100000}, shards={Q: 1, T: 8})],
+        rule="events = real calls of the sp<->ext converters, NewExtendedSpatialID + accessors, ConvertExtendedSpatialIDToSpatialIDs, GetVoxelIDfromSpatialID; distinct = distinct (op, window, arguments); non-trivial = non-empty list / h != v for expansion",
+        assumptions=["TLC", "window embedding/projection E,P", "TLA+ statement of C10 (C10_*)"],
+    ),
 }
